@@ -13,7 +13,8 @@ from tlc import run_tlc
 import render, mast
 from mast import lit, var, bin_, un, par, idx
 
-PRE = ['A% = 2', 'B! = 3', 'S$ = "ab"', 'DIM AR%(5)', 'DIM AS$(3)']
+PRE = ['TYPE RT', '  S AS STRING * 3', '  X AS INTEGER', 'END TYPE', 'A% = 2', 'B! = 3', 'S$ = "ab"', 'DIM AR%(5)', 'DIM AS$(3)',
+       'DIM FX AS STRING * 4', 'DIM REC AS RT', 'FX = "fx"', 'REC.S = "r"', 'REC.X = 4']
 POST = ['FUNCTION FN%(X%)', '  FN% = X% + 1', 'END FUNCTION', 'FUNCTION FS$(X$)', '  FS$ = X$ + "!"', 'END FUNCTION',
         'FUNCTION FD#(X#)', '  FD# = X# * 2', 'END FUNCTION', 'SUB SN(X#)', 'END SUB']
 
@@ -26,8 +27,16 @@ def ucall(name, ps, r, *args):
     return {"k": "ucall", "name": name, "ps": ps, "r": r, "args": list(args)}
 
 
+def bare(n, t):
+    v = var(n, t)
+    v["bare"] = True
+    return v
+
+
 def leaves():
-    return [var("A", "I"), var("B", "S"), var("S", "$"), lit("I", 1), lit("$", "x"), lit("D", 2)]
+    # typed variables, literals, a fixed-length string variable and the two kinds of record member
+    return [var("A", "I"), var("B", "S"), var("S", "$"), lit("I", 1), lit("$", "x"), lit("D", 2),
+            bare("FX", "$"), bare("REC.S", "$"), bare("REC.X", "I")]
 
 
 def exprs(tier, rng):
@@ -185,7 +194,17 @@ def apply_edit(p, kind, rng):
         done = False
         for a in s["args"]:
             if a.get("k") == "var" and not done:
-                newargs.append({"k": "var", "n": "QZ", "t": "$" if a["t"] != "$" else "I"})
+                variant = rng.choice(["kind", "numtype", "numtype-elem"]) if a["t"] in ("I", "L", "S", "D") else "kind"
+                other = rng.choice([t for t in ("I", "L", "S", "D") if t != a["t"]]) if variant != "kind" else None
+                if variant == "kind":
+                    newargs.append({"k": "var", "n": "QZ", "t": "$" if a["t"] != "$" else "I"})
+                elif variant == "numtype":
+                    # by reference the type must be the parameter's own: another numeric type is a mismatch too
+                    newargs.append({"k": "var", "n": "QZ", "t": other})
+                else:
+                    newargs.append(idx("QZA", other, [lit("I", 1)]))
+                    p["main"] = [{"k": "dim", "id": 90010, "n": "QZA", "t": other, "dims": [{"lo": lit("I", 0), "hi": lit("I", 2), "nolo": True}],
+                                  "shared": False, "fix": 0, "extended": False, "ty": ""}] + p["main"]
                 done = True
             else:
                 newargs.append(a)
